@@ -203,16 +203,13 @@ impl<T> Arr2D<T> {
     where
         T: Copy + std::default::Default + std::ops::AddAssign + std::ops::Mul<Output = T>,
     {
-        if self.height == 1 && self.width == 1 || rhs.height == 1 && rhs.width == 2 {
-            let mut matrix = Arr2D::new();
-            let mut scalar = T::default();
-            if rhs.height == 1 {
-                matrix = self.clone();
-                scalar = rhs[0][0];
-            } else if self.height == 1 {
-                matrix = rhs.clone();
-                scalar = self[0][0];
-            }
+        if self.height == 1 && self.width == 1 || rhs.height == 1 && rhs.width == 1 {
+            // A 1x1 operand acts as a scalar on the other operand
+            let (matrix, scalar) = if self.height == 1 && self.width == 1 {
+                (rhs, self[0][0])
+            } else {
+                (self, rhs[0][0])
+            };
 
             let mut result = Arr2D::full(T::default(), matrix.height, matrix.width);
             for i in 0..matrix.height {
